@@ -181,15 +181,16 @@ Definition reingold_tilford (p : params) (t : tree) : ctree :=
 (* ---------------------------------------------------------------------------------------------
    Running the layout again on a tree that was laid out before.
 
-   What the three passes read back from an earlier run: only `shift` of non-root nodes
-   (plot.py:202 get_attr("shift", _shift) and 226 sibling.get_attr("shift", 0)).  x and mod are
-   written (200-201) before anything reads them in the same run (left_sibling.x 191, the children
-   in _get_midpoint_of_children, the contour nodes in _get_subtree_shift are all processed earlier
-   in the same post-order traversal); the root's x/mod/shift are overwritten (178-181); y is
-   write-only.  So the state a run leaves behind is the `shift` of every node = dsh in the
-   first-pass result, and a run on a previously laid-out tree is the same loop `place`, started
-   with those shifts as the pending shifts instead of zeros.  A node without the attribute (a
-   fresh node) counts as shift 0. *)
+   What _first_pass reads back from the node attributes: only `shift` of non-root nodes
+   (plot.py get_attr("shift", _shift) and sibling.get_attr("shift", 0)).  x and mod are written
+   before anything reads them in the same run (left_sibling.x, the children in
+   _get_midpoint_of_children, the contour nodes in _get_subtree_shift are all processed earlier in
+   the same post-order traversal); the root's x/mod/shift are overwritten; y is write-only.
+   `fpd` is that loop started from whatever shifts the nodes carry.
+   Since commit 6d1d6cb (F10) reingold_tilford first resets `shift` to 0.0 on every node of the
+   tree (plot.py:81-83, `reset_d`), so a call no longer depends on earlier calls; the annotations
+   are still carried along here so that exactly this is what the theorems state and what the
+   correspondence check would notice if the reset disappeared. *)
 Fixpoint fpd (ss sts : Q) (d : dtree) : list dtree :=
   match d with
   | D _ _ _ ks => place ss sts [] (map (fpd ss sts) ks) (map dsh ks)
@@ -202,10 +203,14 @@ Definition first_pass_d (ss sts : Q) (d : dtree) : dtree :=
 Fixpoint zero_d (t : tree) : dtree := match t with T _ _ _ ks => D 0 0 0 (map zero_d ks) end.
 Fixpoint tree_of_d (d : dtree) : tree := match d with D _ _ _ ks => T None [] [] (map tree_of_d ks) end.
 
+(* plot.py:81-83  for node in preorder_iter(tree_node): node.set_attrs({"shift": 0.0}) *)
+Fixpoint reset_d (d : dtree) : dtree :=
+  match d with D x m _ ks => D x m 0 (map reset_d ks) end.
+
 (* one call of reingold_tilford on a tree carrying the annotations `prior`:
    (annotations left behind, coordinates) *)
 Definition layout (p : params) (prior : dtree) : dtree * ctree :=
-  let f := first_pass_d (p_ss p) (p_sts p) prior in
+  let f := first_pass_d (p_ss p) (p_sts p) (reset_d prior) in
   (f, third (second (p_ls p) (p_xo p) (p_yo p) (dheight prior) 1%nat 0 f)).
 
 (* the annotations after calling reingold_tilford with the parameter sets ps, in this order *)
@@ -223,7 +228,8 @@ Definition rt_again (ps : list params) (p : params) (t : tree) : ctree :=
 Inductive edit :=
 | ENone
 | ERev (at_ : list nat)               (* node.children = reversed(node.children) *)
-| EAdd (at_ : list nat) (i : nat).    (* a fresh leaf inserted as i-th child *)
+| EAdd (at_ : list nat) (i : nat)     (* a fresh leaf inserted as i-th child *)
+| EDel (at_ : list nat) (i : nat).    (* the i-th child (a leaf in generated cases) removed *)
 
 Fixpoint edit_at (f : list dtree -> list dtree) (path : list nat) (d : dtree) : dtree :=
   match d with
@@ -244,6 +250,7 @@ Definition apply_edit (e : edit) (d : dtree) : dtree :=
   | ENone => d
   | ERev path => edit_at (@rev dtree) path d
   | EAdd path i => edit_at (fun ks => firstn i ks ++ dzero :: skipn i ks) path d
+  | EDel path i => edit_at (fun ks => firstn i ks ++ skipn (S i) ks) path d
   end.
 
 (* a sequence of (edit, parameters): edit, then lay out; returns the last state *)
